@@ -560,11 +560,22 @@ class AssignImplicit(AssignmentBase):
         else:
             assignees = self.assignees
 
+        # The variables being solved for occur in *expressions*, which are
+        # mapped, so they have to follow.
+        solve_vars = tuple(
+                mapper(Variable(solve_var)) for solve_var in self.solve_variables)
+        assert all(isinstance(solve_var, Variable) for solve_var in solve_vars)
+
         return (super()
                 .map_expressions(mapper, include_lhs=include_lhs)
                 .copy(
                     assignees=assignees,
-                    expressions=mapper(self.expressions)))
+                    solve_variables=tuple(
+                        solve_var.name for solve_var in solve_vars),
+                    expressions=mapper(self.expressions),
+                    other_params={
+                        name: mapper(value)
+                        for name, value in self.other_params.items()}))
 
     def __str__(self):
         lines = []
